@@ -52,6 +52,35 @@ func VerifC07_GraceWrapperAlwaysSchedulesAWakeUp() {
 	}
 }
 
+// VerifC07_GraceWaitIsNotRestartedByReChecks: the callers re-check a running grace period on their own schedule
+// (doFinalising requeues every 3 s whatever gracePeriodSeconds is; watch events arrive at any time).  A re-check
+// that finds the period still running only reports it: the pending record — the instant the wait is measured from —
+// is the same record afterwards, so the deadline does not move and the wait ends after gracePeriodSeconds however
+// often it is looked at.  (Seed C07-14: the unsatisfied branch re-recorded the expectation with time.Now().)
+func VerifC07_GraceWaitIsNotRestartedByReChecks() {
+	e := NewGraceExpectations()
+	ago := verifrt.IntRange("pre.ago", 0, 20)
+	t0 := time.Now().Add(-time.Duration(ago) * time.Second)
+	e.controllerCache["k"] = timeCache{"act": &t0}
+	before := e.controllerCache["k"]["act"]
+	g := int32(verifrt.IntRange("graceSeconds", 1, 10))
+	n := verifrt.Bound("rechecks", 1, 2)
+	for i := 0; i < n; i++ {
+		retry, remaining, err := runWithGraceSeconds(e, "k", "act", g, func() (bool, error) { return false, nil })
+		verifrt.Assert(err == nil, "C07.grace.recheck.noerror")
+		if !retry {
+			verifrt.Cover("expired")
+			return
+		}
+		verifrt.Cover("stillWaiting")
+		after, pending := e.controllerCache["k"]["act"]
+		verifrt.Assert(pending, "C07.grace.recheck.recordKeptWhileWaiting")
+		verifrt.Assert(after == before, "C07.grace.recheck.waitNotRestarted")
+		verifrt.Assert(pending && after.Equal(t0), "C07.grace.recheck.deadlineDoesNotMove")
+		verifrt.Assert(remaining <= time.Duration(g)*time.Second, "C07.grace.recheck.waitBoundedByGracePeriod")
+	}
+}
+
 // VerifC19_GraceOperationsOnDifferentKeysCommute: the outcome of one rollout's call does not depend on whether
 // another rollout's call (different key) ran before it, and it leaves the other rollout's entry untouched.
 func VerifC19_GraceOperationsOnDifferentKeysCommute() {
